@@ -380,22 +380,23 @@ def _env(S, i):
     return {t: PTS[(j + i) % len(PTS)] + 0.113 * i + 0.0171 * j for j, t in enumerate(sorted(S, key=str))}
 
 
-def mveq(exp, got, rtol=1e-12, sym_rtol=1e-9, regs_in_lists_raw=True):
-    """exp: model value; got: implementation value."""
+def mveq(exp, got, rtol=1e-12, sym_rtol=1e-9, regs_in_lists_raw=False):
+    """exp: model value; got: implementation value.  A register expression must arrive as a RegRefTransform when it
+    is an argument itself; as an element of a list-valued keyword the properties do not say (`regs_in_lists_raw`)."""
     import numpy as np
     import sympy as sym
     from bbv.core.observe import kind, close
     if isinstance(exp, tuple) and exp and exp[0] == "pname":
         return isinstance(got, str) and got == exp[1]
     if isinstance(exp, list):
-        return isinstance(got, list) and len(exp) == len(got) and all(mveq(a, b, rtol, sym_rtol) for a, b in zip(exp, got))
+        return isinstance(got, list) and len(exp) == len(got) and all(mveq(a, b, rtol, sym_rtol, True) for a, b in zip(exp, got))
     if isinstance(exp, Arr):
         if not isinstance(got, np.ndarray) or tuple(got.shape) != exp.shape:
             return False
         if not any(isinstance(x, Sym) for x in exp.flat()):
             if got.dtype.kind != {"int": "i", "float": "f", "complex": "c"}[exp.kind]:
                 return False
-        return all(mveq(a, b, rtol, sym_rtol) for a, b in zip(exp.flat(), got.flatten().tolist()))
+        return all(mveq(a, b, rtol, sym_rtol, True) for a, b in zip(exp.flat(), got.flatten().tolist()))
     if isinstance(exp, Sym):
         S = exp.syms()
         regs = sorted(t[1] for t in S if t[0] == "q")
